@@ -22,9 +22,14 @@ Rel(cc) == LET ua == EUa(cc)[1]  ud == EUd(cc)[1] IN
            ELSE IF SameUnit(ua, ud) THEN "same-unit"
            ELSE IF QLe(UScale(ud), UScale(ua)) /\ ~QEq(UScale(ud), UScale(ua)) THEN "actual-coarser"
            ELSE IF QEq(UScale(ud), UScale(ua)) THEN "same-scale-other-zero" ELSE "actual-finer"
+\* value class of the readings, for the finding key
+HasTag(cc, t) == (\E k \in DOMAIN cc.sa : cc.sa[k] = t) \/ (\E k \in DOMAIN cc.sd : cc.sd[k] = t)
+ValueClass(cc) == IF HasTag(cc, "nan") THEN "nan" ELSE IF HasTag(cc, "inf") \/ HasTag(cc, "-inf") THEN "infinity"
+                  ELSE IF cc.a = <<>> \/ cc.d = <<>> THEN "empty" ELSE IF HasTag(cc, "-0") THEN "negative-zero" ELSE "finite"
 Describe(cc, o, clause, why) ==
   [i |-> i, clause |-> clause, explains |-> why, helper |-> cc.helper, reg |-> cc.reg, actual_kind |-> cc.ka, desired_kind |-> cc.kd,
-   atol |-> TolKind(cc.at), rtol |-> TolKind(cc.rt), units |-> Rel(cc), observed |-> o, model |-> T(cc)]
+   atol |-> TolKind(cc.at), rtol |-> TolKind(cc.rt), units |-> Rel(cc), values |-> ValueClass(cc), equal_nan |-> cc.en,
+   observed |-> o, model |-> T(cc)]
 Step(r) ==
   LET cc == r.c
       o == r.obs
@@ -35,6 +40,9 @@ Step(r) ==
   /\ (r.g # 0 /\ r.g = grp[1] /\ v # grp[2] =>
         PrintT(ToJson([tag |-> "P-FAIL", atol |-> "some-member-of-the-group", rtol |-> "some-member-of-the-group", units |-> "some-member-of-the-group"]
                       @@ Describe(cc, o, "verdict-changes-when-units-are-re-expressed", IF p # "" THEN Explain(cc, o) ELSE grp[3]))))
+  \* form consistency (r.twin = what the boolean form did on the very same arguments, "none" if there is no such case)
+  /\ (cc.helper = "assert_allclose_units" /\ r.twin.k # "none" /\ Accepts(o) # Accepts(r.twin) =>
+        PrintT(ToJson([tag |-> "P-FAIL"] @@ Describe(cc, o, "assert-form-and-boolean-form-disagree", Explain(cc, o)))))
   /\ grp' = IF r.g # 0 /\ r.g # grp[1] THEN <<r.g, v, IF p # "" THEN Explain(cc, o) ELSE "none">> ELSE grp
 TraceNext == i <= Len(Obs) /\ Step(Obs[i]) /\ i' = i + 1
 =============================================================================
